@@ -136,7 +136,10 @@ func (ye *YouTubeExtractor) getDataFromSrcURL(srcURL string) (string, map[string
 	for i := len(pathParts) - 1; i >= 0; i-- {
 		part := strings.TrimSpace(pathParts[i])
 		if part != "" {
-			if part != "embed" && part != "v" {
+			// Page names are not video IDs
+			switch part {
+			case "embed", "v", "watch", "videoseries":
+			default:
 				videoID = part
 			}
 			break
